@@ -335,3 +335,10 @@ PLAN["C06"]["quick"]["tests"].append({"run": "TestC06Deletion", "shards": 3, "ch
 PLAN["C06"]["thorough"]["tests"][0]["shards"] = 8
 PLAN["C06"]["thorough"]["tests"].append({"run": "TestC06Deletion", "shards": 3, "checks": 2500, "timeout": 840})
 PLAN["C06"]["rule"] += "; TestC06Deletion: the engine oracle over deletion-heavy programs (delete requests for user snapshots, checkpoints, cleaner-style removal of any candidate the product offers)"
+
+PLAN["C18"]["quick"]["tests"][0]["shards"] = 13
+PLAN["C18"]["quick"]["tests"].append({"run": "TestC18Bootstrap", "shards": 3, "checks": 60, "timeout": 130})
+PLAN["C18"]["thorough"]["tests"][0]["shards"] = 13
+PLAN["C18"]["thorough"]["tests"].append({"run": "TestC18Bootstrap", "shards": 3, "checks": 1500, "timeout": 840})
+PLAN["C18"]["rule"] += ("; TestC18Bootstrap: the scripted bootstrap programs of C09 (registrations, failed signals, single- and multi-address starts that succeed or fail half-way, the volume going down and being "
+                        "bootstrapped again) with the list/backends/RW-count/read-only agreement checked after every step")
